@@ -1,0 +1,55 @@
+//go:build verif
+
+package compiler
+
+import (
+	"context"
+
+	"github.com/inspirer/textmapper/parsers/tm"
+	"github.com/inspirer/textmapper/parsers/tm/ast"
+	"github.com/inspirer/textmapper/status"
+	"github.com/inspirer/textmapper/syntax"
+)
+
+// Hook for the verification harness (/verif). It only exposes package internals.
+
+// VerifTypesInput replays Compile and compileParser up to the call of syntax.ExtractTypes and returns
+// the arguments ExtractTypes would receive (the instantiated, not yet expanded model).
+func VerifTypesInput(ctx context.Context, path, content string) (*syntax.Model, []syntax.RangeToken, syntax.TypeOptions, error) {
+	var none syntax.TypeOptions
+	tree, err := ast.Parse(ctx, path, content, tm.StopOnFirstError)
+	if err != nil {
+		return nil, nil, none, err
+	}
+	file := ast.File{Node: tree.Root()}
+
+	var s status.Status
+	opts := newOptionsParser(&s)
+	opts.parseFrom(file)
+	resolver := newResolver(&s)
+	lexer := newLexerCompiler(opts.out, resolver, &s)
+	lexer.compile(file)
+
+	p, ok := file.Parser()
+	if !ok || !opts.out.GenParser || !opts.out.EventBased {
+		return nil, nil, none, s.Err()
+	}
+	target, _ := file.Header().Target()
+	loader := newSyntaxLoader(resolver, target.Text(), opts.out, &s)
+	loader.load(p, file.Header())
+	if err := s.Err(); err != nil {
+		return nil, nil, none, err
+	}
+	source := loader.out
+	if err := syntax.PropagateLookaheads(source); err != nil {
+		return nil, nil, none, err
+	}
+	if err := syntax.Instantiate(source); err != nil {
+		return nil, nil, none, err
+	}
+	return source, loader.mapping, syntax.TypeOptions{
+		EventFields: opts.out.EventFields,
+		GenSelector: opts.out.GenSelector,
+		ExtraTypes:  opts.out.ExtraTypes,
+	}, nil
+}
